@@ -4,7 +4,7 @@ import urllib.parse as U
 from . import common
 from .common import Exc
 from .oracle_env import env_for
-from .url_grammar import gen_url, call
+from .url_grammar import gen_url, gen_host, call
 
 THEOREMS = ['C07_get_normalized_hostname', 'C07_get_fingerprinted_hostname'] + ["(main statement: harness deciders on the implementation + model correspondence — partial)"]
 
@@ -25,6 +25,12 @@ def run(res, tier, rng):
         elif r < 0.2:
             u = "http://r.com/?url=" + U.quote(u, safe="")
         urls.append(u)
+    for _ in range(400 if tier == "quick" else 6000):
+        h = gen_host(rng)
+        hosts.append(h)
+        if rng.random() < 0.3:
+            urls.append(h)
+    hosts = list(dict.fromkeys(hosts))
     nontriv = set()
     for u in urls:
         res.evaluations += 1
@@ -35,7 +41,7 @@ def run(res, tier, rng):
                 if isinstance(sp, Exc) or isinstance(sp, str) or isinstance(a, Exc):
                     continue
                 b = sp.hostname
-                if a != b:
+                if (a or None) != (b or None):
                     res.violation("property", "get_normalized_hostname(u) is not the host of normalize_url(u)", input=dict(url=u, normalize_amp=amp, infer_redirection=infer), impl=[a, b])
                 else:
                     nontriv.add(u)
@@ -47,7 +53,8 @@ def run(res, tier, rng):
                 sp = call(fingerprint_url, u, unsplit=False, strip_suffix=ss)
                 if isinstance(sp, Exc) or isinstance(a, Exc):
                     continue
-                if a != sp.hostname:
+                # a url whose host is stripped away entirely has no host: SplitResult.hostname spells that None, the helper ''
+                if (a or None) != (sp.hostname or None):
                     res.violation("property", "get_fingerprinted_hostname(u) is not the host of fingerprint_url(u)", input=dict(url=u, strip_suffix=ss), impl=[a, sp.hostname])
         gh = call(get_hostname, u)
         try:
@@ -85,10 +92,10 @@ def run(res, tier, rng):
             b = call(get_fingerprinted_hostname, "http://" + h.strip() + "/x", strip_suffix=ss)
             sp = call(fingerprint_url, "http://" + h.strip() + "/x", strip_suffix=ss, unsplit=False)
             c = sp.hostname if not isinstance(sp, Exc) else sp
-            if not (a == b == c):
+            if not ((a or None) == (b or None) == (c or None)):
                 res.violation("property", "fingerprint_hostname / get_fingerprinted_hostname / fingerprint_url disagree on the host", input=dict(hostname=h, strip_suffix=ss), impl=[a, b, c])
     # model vs implementation for the helpers
-    strs = urls[:1500] if tier == "quick" else urls
+    strs = (urls[:1500] if tier == "quick" else urls) + hosts
     chunks = [strs[i:i + 300] for i in range(0, len(strs), 300)]
     outs = common.run_driver_parallel([("hostnames", [env_for(*ch), ch]) for ch in chunks], jobs=12)
     for ch, out in zip(chunks, outs):
